@@ -6,7 +6,7 @@ from lib import Case, fmt_list
 
 PROP = "C18"
 DRIVER = "drv-c18"
-PROOF_MODULES = ["TetlProofs.C18.Props"]
+PROOF_MODULES = ["TetlProofs.C18.Props", "TetlProofs.C18.PropsCtype"]
 HARNESS = "harness/c18.cpp"
 SOURCES = ["include/etl/_strings/cstr.hpp", "include/etl/_cstring", "include/etl/_cwchar", "include/etl/_cctype",
            "include/etl/_cwctype", "include/etl/_cstdlib/div.hpp", "include/etl/_cstdlib/labs.hpp",
